@@ -403,7 +403,7 @@ def _allclose(a, b, rtol=1e-05, atol=1e-08, equal_nan=False):
 
 symnp.isclose = _isclose
 symnp.allclose = _allclose
-symnp.seterr = lambda **k: {}
+symnp.seterr = _np.seterr
 
 
 def _sum(a, axis=None, *args, **kw):
